@@ -17,6 +17,7 @@
 (*   v1/vs1  value / stripped value starts with "1"                        *)
 (*   ci, civ value parses as an integer (Python int(v, 10)), its value     *)
 (*   u8      name and value are valid UTF-8                                *)
+(*   sz/nsz  RFC 7541 size (name + value + 32) as given / after lower+strip*)
 (* The operators below are the library's rules, in the order it applies    *)
 (* them, because the order decides which failure is seen first.            *)
 (***************************************************************************)
@@ -28,6 +29,10 @@ RequestOnly  == {":scheme", ":path", ":authority", ":method", ":protocol"}
 SecureNames  == {"authorization", "proxy-authorization"}
 
 Idx(h) == 1..Len(h)
+
+\* RFC 7541 section 4.1 size of a header list (what SETTINGS_MAX_HEADER_LIST_SIZE bounds)
+RECURSIVE ListSize(_)
+ListSize(h) == IF h = <<>> THEN 0 ELSE h[1].sz + ListSize(Tail(h))
 
 \* a header field as an observer sees it on the wire / in an event
 Wire(t, ty) == [n |-> t.n, v |-> t.v, ni |-> t.k = "N", ty |-> ty]
@@ -51,7 +56,7 @@ CLTok(h)  == h[FirstIdx(h, "content-length")]
 \* _lowercase_header_names, _strip_surrounding_whitespace, _secure_headers on one field
 NormTok(t) ==
   [t EXCEPT !.n = t.nl, !.v = t.vs, !.vlo = t.vslo, !.nu = FALSE, !.ne = (t.nl = ""), !.nw = FALSE,
-            !.vlead = FALSE, !.vtrail = FALSE, !.np = t.nlp, !.v1 = t.vs1,
+            !.vlead = FALSE, !.vtrail = FALSE, !.np = t.nlp, !.v1 = t.vs1, !.sz = t.nsz,
             !.k = IF (t.k = "N") \/ (t.nl \in SecureNames) \/ (t.nl = "cookie" /\ t.vsn < 20) THEN "N" ELSE t.k]
 NormalizeOut(h) ==      \* ... and _strip_connection_headers
   SelectSeq([i \in Idx(h) |-> NormTok(h[i])], LAMBDA t : t.n \notin ConnSpecific)
